@@ -1,8 +1,14 @@
 from verif import Ob
-import txobs
-META = {'bounds': 'see obligations', 'outside': 'line/header parsing states are abstract in the history harness (their own fidelity is C02/C03); callbacks return OK in histories',
-        'assumptions': ['htp_log stubbed', 'mini-drivers in harness/tx/hist.c replicate the return-code mapping of the real drivers, which is itself checked against contract stubs (C09 drv.*)'], 'trusted_base': ['harness/tx/hist.c script and mini-drivers']}
+import txobs, streamobs as so
+META = {'bounds': 'histories: concrete scripts of 1-3 request/response pairs (methods GET, GET+body, CONNECT; status 200/404/407/101/100), 3-4 rounds; completion functions: one real transaction with every lifecycle field symbolic; state functions: chunks <= 4 bytes from symbolic pre-states',
+        'outside': 'line/header parsing states are abstract in the history harness (their fidelity is C02/C03); callbacks return OK in histories (all return codes are symbolic in the completion-function and state-function obligations)',
+        'assumptions': ['htp_log stubbed', 'mini-drivers in harness/tx/hist.c replicate the return-code mapping of the real drivers, which is itself checked against contract stubs (C09 drv.*)'],
+        'trusted_base': ['harness/tx/hist.c script and mini-drivers', 'lifecycle monitor in the callbacks']}
+REQ_CHEAP = [1, 3, 5, 6, 7, 8, 9, 11, 12, 13, 14]
+RES_CHEAP = [1, 5, 6, 8, 9, 10]
 def obligations(tier):
-    obs = txobs.hist_all(tier, 2, 3, 'quick')
-    if tier == 'thorough': obs += txobs.hist_all(tier, 3, 4, 'thorough')
+    obs = txobs.hist_all(tier, 'quick') + txobs.complete_all('quick')
+    obs += [so.req_step(s, n=4) for s in REQ_CHEAP] + [so.res_step(s, n=4) for s in RES_CHEAP] + [so.res_step(4, n=4)]
+    if tier == 'thorough':
+        obs += [so.req_step(s, n=4, tier='thorough') for s in so.REQ_STATES if s not in REQ_CHEAP] + [so.res_step(s, n=(3 if s == 3 else 4), tier='thorough') for s in (2, 3, 7)]
     return obs
